@@ -466,6 +466,7 @@ static LY_ERR
 yin_parse_attribute(struct lysp_yin_ctx *ctx, enum yin_argument arg_type, const char **arg_val, enum yang_arg val_type,
         enum ly_stmt current_element)
 {
+    LY_ERR rc = LY_SUCCESS;
     enum yin_argument arg = YIN_ARG_UNKNOWN;
     bool found = false;
 
@@ -476,29 +477,34 @@ yin_parse_attribute(struct lysp_yin_ctx *ctx, enum yin_argument arg_type, const 
             arg = yin_match_argument_name(ctx->xmlctx->name, ctx->xmlctx->name_len);
             if (arg == YIN_ARG_NONE) {
                 /* skip it */
-                LY_CHECK_RET(lyxml_ctx_next(ctx->xmlctx));
+                LY_CHECK_GOTO(rc = lyxml_ctx_next(ctx->xmlctx), error);
             } else if (arg == arg_type) {
-                LY_CHECK_ERR_RET(found, LOGVAL_PARSER((struct lysp_ctx *)ctx, LY_VCODE_DUP_ATTR,
-                        yin_attr2str(arg), lyplg_ext_stmt2str(current_element)), LY_EVALID);
+                if (found) {
+                    LOGVAL_PARSER((struct lysp_ctx *)ctx, LY_VCODE_DUP_ATTR, yin_attr2str(arg),
+                            lyplg_ext_stmt2str(current_element));
+                    rc = LY_EVALID;
+                    goto error;
+                }
                 found = true;
 
                 /* go to value */
-                LY_CHECK_RET(lyxml_ctx_next(ctx->xmlctx));
-                LY_CHECK_RET(yin_validate_value(ctx, val_type));
+                LY_CHECK_GOTO(rc = lyxml_ctx_next(ctx->xmlctx), error);
+                LY_CHECK_GOTO(rc = yin_validate_value(ctx, val_type), error);
                 INSERT_STRING_RET(ctx->xmlctx->ctx, ctx->xmlctx->value, ctx->xmlctx->value_len, ctx->xmlctx->dynamic, *arg_val);
                 LY_CHECK_RET(!(*arg_val), LY_EMEM);
             } else {
                 LOGVAL_PARSER((struct lysp_ctx *)ctx, LY_VCODE_UNEXP_ATTR, (int)ctx->xmlctx->name_len,
                         ctx->xmlctx->name, lyplg_ext_stmt2str(current_element));
-                return LY_EVALID;
+                rc = LY_EVALID;
+                goto error;
             }
         } else {
             /* skip it */
-            LY_CHECK_RET(lyxml_ctx_next(ctx->xmlctx));
+            LY_CHECK_GOTO(rc = lyxml_ctx_next(ctx->xmlctx), error);
         }
 
         /* next attribute */
-        LY_CHECK_RET(lyxml_ctx_next(ctx->xmlctx));
+        LY_CHECK_GOTO(rc = lyxml_ctx_next(ctx->xmlctx), error);
     }
 
     /* anything else than Y_MAYBE_STR_ARG is mandatory */
@@ -509,6 +515,14 @@ yin_parse_attribute(struct lysp_yin_ctx *ctx, enum yin_argument arg_type, const 
     }
 
     return LY_SUCCESS;
+
+error:
+    if (found && arg_val && *arg_val) {
+        /* the argument was stored already, many callers keep it only in a local variable */
+        lydict_remove(ctx->xmlctx->ctx, *arg_val);
+        *arg_val = NULL;
+    }
+    return rc;
 }
 
 /**
